@@ -237,7 +237,9 @@ HARNESS(h_helpers_b)
 #endif
       CHECK(sg(tlx::compare_icase(a, b)) == ref, "compare_icase(view, view) has the sign of strcmp on the lower-cased strings");
       CHECK(sg(tlx::compare_icase((const char*)s, (const char*)t)) == ref && sg(tlx::compare_icase((const char*)s, b)) == ref && sg(tlx::compare_icase(a, (const char*)t)) == ref, "compare_icase (const char* overloads)");
-      CHECK(tlx::equal_icase(a, b) == (ref == 0) && tlx::equal_icase((const char*)s, (const char*)t) == (ref == 0), "equal_icase"); }
+      CHECK(tlx::equal_icase(a, b) == (ref == 0) && tlx::equal_icase((const char*)s, (const char*)t) == (ref == 0), "equal_icase");
+      CHECK(tlx::equal_icase((const char*)s, b) == (ref == 0), "equal_icase(const char*, view)");
+      CHECK(tlx::equal_icase(a, (const char*)t) == (ref == 0), "equal_icase(view, const char*)"); }
     { // Levenshtein distance by the full Wagner-Fischer matrix
       unsigned d[N + 1][M + 1], di[N + 1][M + 1];
       for (unsigned i = 0; i <= N; ++i) for (unsigned j = 0; j <= M; ++j) {
